@@ -1047,6 +1047,9 @@ class DocutilsRenderer(RendererProtocol):
         self.document.note_refname(ref_node)
         with self.current_node_context(ref_node, append=True):
             self.render_children(token)
+        # docutils replaces an unresolved reference by ``problematic(rawsource)``:
+        # without a rawsource the text of the link would be lost
+        ref_node.rawsource = ref_node.astext()
 
     def render_link_inventory(self, token: SyntaxTreeNode) -> None:
         r"""Create a link to an inventory object.
